@@ -74,6 +74,13 @@ func genC20(seed uint64) *Scenario {
 		n = pick(r, []int{4, 8, 16, 30, 60, 120, 200})
 	}
 	texts := []string{"e1", "e2", "e3", "w1", "w2", "same", "same", "x y", ""}
+	if r.Chance(250) {
+		// many distinct messages: de-duplication over long lists, repeats that are far apart or inside one batch
+		for i := 0; i < pick(r, []int{12, 24, 48}); i++ {
+			texts = append(texts, fmt.Sprintf("m%d", i))
+		}
+	}
+	batchMax := pick(r, []int{3, 3, 6, 10})
 	rs := &ResultScenario{Slots: slots}
 	pooledPM := pick(r, []int{0, 300, 600, 900})
 	for i := 0; i < slots && i < 3; i++ {
@@ -105,8 +112,11 @@ func genC20(seed uint64) *Scenario {
 		}
 		switch st.Op {
 		case "adderr", "addwarn":
-			for k := 0; k < r.Range(1, 3); k++ {
+			for k := 0; k < r.Range(1, batchMax); k++ {
 				st.Msgs = append(st.Msgs, pick(r, texts))
+			}
+			if len(st.Msgs) >= 2 && r.Chance(300) {
+				st.Msgs = append(st.Msgs, st.Msgs[0]) // the same text again inside one call
 			}
 		case "merge", "merge_err", "merge_warn":
 			for k := 0; k < r.Range(1, 3); k++ {
